@@ -97,8 +97,9 @@ def evaluate(sdir, props):
             if m and os.path.exists(m.group(1)):
                 d = json.load(open(m.group(1)))
                 detail = (d.get('verdict') or '; '.join(b['what'] + ': ' + b['detail'][:300] for b in d.get('broken', [])))[:600]
-            results[p] = dict(exit=rc, caught=rc == 1, lines=lines[:4], detail=detail, wall_s=round(time.time() - t0, 1))
-            print(os.path.basename(sdir), p, 'CAUGHT' if rc == 1 else 'MISSED(exit %d)' % rc, detail[:200])
+            caught = rc == 1 and any(l.startswith('VIOLATION') for l in lines)
+            results[p] = dict(exit=rc, caught=caught, lines=lines[:4], detail=detail, wall_s=round(time.time() - t0, 1))
+            print(os.path.basename(sdir), p, 'CAUGHT' if caught else 'MISSED(exit %d)' % rc, detail[:200])
     finally:
         sh('git -C %s checkout -- .' % REPO)
     json.dump(results, open(os.path.join(sdir, 'result.json'), 'w'), indent=1)
